@@ -288,8 +288,9 @@ fn exec(desc: &Value, tr: &mut Tracer) -> anyhow::Result<()> {
     let delta = gf(c, "delta") / sc.ps;
     let mut l = build::loco(&params)?;
     let fresh = l.clone();
+    let base = tr.lines; // events of this case are at line(begin) + (tr.lines - base) + 1 when emitted
     // ---- call by call, like LocomotiveSimulation::solve_step (loco_sim.rs:226)
-    let mut accepted: Vec<(f64, f64, bool, i64)> = vec![]; // (dt, req, eng, dtq)
+    let mut accepted: Vec<(f64, f64, bool, i64, u64)> = vec![]; // (dt, req, eng, dtq, line offset of the Solve record)
     for (k, s) in ga(desc, "steps").iter().enumerate() {
         let eng = gb(s, "eng");
         let dtq = gi(s, "dt");
@@ -322,8 +323,8 @@ fn exec(desc: &Value, tr: &mut Tracer) -> anyhow::Result<()> {
                     tr.emit(json!({"ev": if pr.nan {"Nan"} else {"Overflow"}, "at":"Solve","k":k+1}));
                     return Ok(());
                 }
-                accepted.push((dt, req, eng, dtq));
-                tr.emit(json!({"ev":"Solve","walk":false,"k":k+1,"cls":cls,"req":reqq,"acc":true,"p":p,"e":e,"eta":eta,
+                accepted.push((dt, req, eng, dtq, tr.lines - base + 1));
+                tr.emit(json!({"ev":"Solve","walk":false,"k":k+1,"ref":0,"cls":cls,"req":reqq,"acc":true,"p":p,"e":e,"eta":eta,
                                "soc":soc,"i":l.state.i,"exact":pr.exact()}));
             }
             Err(e) => {
@@ -343,7 +344,7 @@ fn exec(desc: &Value, tr: &mut Tracer) -> anyhow::Result<()> {
     let mut t = vec![0.0];
     let mut pw = vec![0.0];
     let mut eo = vec![Some(true)];
-    for (dt, req, eng, _) in &accepted {
+    for (dt, req, eng, _, _) in &accepted {
         t.push(t.last().unwrap() + dt);
         pw.push(*req);
         eo.push(Some(*eng));
@@ -356,7 +357,7 @@ fn exec(desc: &Value, tr: &mut Tracer) -> anyhow::Result<()> {
         if k > accepted.len() {
             break;
         }
-        let (_, req, eng, dtq) = accepted[k - 1];
+        let (_, req, eng, dtq, rf) = accepted[k - 1];
         let mut pr = Proj::new();
         let pb = proj_pub(sn, &sc, &mut pr);
         let (p, e, eta, soc) = proj_state(sn, &sc, &mut pr);
@@ -366,7 +367,7 @@ fn exec(desc: &Value, tr: &mut Tracer) -> anyhow::Result<()> {
             return Ok(());
         }
         tr.emit(json!({"ev":"Pub","walk":true,"k":k,"eng":eng,"dtq":dtq,"pub":pb,"exact":pr.exact()}));
-        tr.emit(json!({"ev":"Solve","walk":true,"k":k,"cls":"hist","req":reqq,"acc":true,"p":p,"e":e,"eta":eta,
+        tr.emit(json!({"ev":"Solve","walk":true,"k":k,"ref":rf,"cls":"hist","req":reqq,"acc":true,"p":p,"e":e,"eta":eta,
                        "soc":soc,"i":sn.loco.i,"exact":pr.exact()}));
     }
     tr.emit(json!({"ev":"WalkEnd","ok":wr.is_ok(),"n":hs.len().saturating_sub(1),"want":accepted.len(),
